@@ -299,6 +299,61 @@ class Body:
         d = self.dominators(unwind)
         return b in d and a in d[b]
 
+    def reachable_without_edge(self, start, edge, unwind=False):
+        a, s_ = edge
+        seen = set()
+        st = [start]
+        while st:
+            b = st.pop()
+            if b in seen:
+                continue
+            seen.add(b)
+            for n in self.succ(b, unwind):
+                if b == a and n == s_:
+                    continue
+                st.append(n)
+        return seen
+
+    def edge_dominates(self, edge, b, unwind=False):
+        """Every path from entry to block b takes CFG edge (a -> s)."""
+        if b not in self.reachable(0, (), unwind):
+            return False
+        # if the switch has several arms to the same target the edge is not unique -> be conservative
+        a, s_ = edge
+        if self.succ(a, unwind).count(s_) != 1:
+            return False
+        return b not in self.reachable_without_edge(0, edge, unwind)
+
+    def edges_dominate(self, edges, b, unwind=False):
+        """Every path from entry to b takes at least one of the given edges."""
+        edges = set(edges)
+        seen = set()
+        st = [0]
+        while st:
+            x = st.pop()
+            if x in seen:
+                continue
+            seen.add(x)
+            for n in self.succ(x, unwind):
+                if (x, n) in edges:
+                    continue
+                st.append(n)
+        return b in self.reachable(0, (), unwind) and b not in seen
+
+    def switch_edges(self, bb):
+        """[(label, target)] for a switch terminator; label is variant name / char / int, or 'otherwise'."""
+        t = self.term(bb)
+        if t["k"] != "switch":
+            return []
+        out = []
+        for a in t["arms"]:
+            out.append((a.get("variant", a.get("char", a["v"])), a["bb"]))
+        out.append(("otherwise", t["otherwise"]))
+        return out
+
+    def call_blocks(self, *suffixes):
+        return [c.bb for c in self.find_calls(*suffixes)]
+
     def return_blocks(self):
         return [i for i in range(self.n) if self.term(i)["k"] == "return"]
 
